@@ -5,6 +5,7 @@ package c03
 import (
 	"context"
 	"fmt"
+	"math"
 	"net/netip"
 	"sync"
 	"sync/atomic"
@@ -109,8 +110,15 @@ func realReq(cfg *ssx.Cfg, ui int) *request {
 }
 
 func tsValid(ts int64, now time.Time) bool {
-	d := ts - now.Unix()
-	return d >= -30 && d <= 30
+	// no subtraction of the request's value: it may be anywhere in the int64 range
+	n := now.Unix()
+	return ts >= n-30 && ts <= n+30
+}
+
+// extremeTS returns a timestamp far outside the window whose distance from now sits on an integer-width edge.
+func extremeTS(r *core.RNG, now time.Time) int64 {
+	n := now.Unix()
+	return []int64{0, 1, -1, math.MaxInt64, math.MinInt64, n + math.MinInt64, n - 1 + math.MinInt64, math.MaxInt64 - 30, n + 1<<31, n - 1<<31, n + 1<<32, n - 1<<32, n + 1<<62, -n}[r.Intn(14)]
 }
 
 type hev struct {
@@ -445,6 +453,12 @@ func runHistory(e *core.Env) {
 					time.Sleep(d)
 					h.ev = append(h.ev, hev{Op: "advance " + d.String(), AtNs: int64(time.Since(h.start))})
 				case op < 6:
+					if r.Chance(1, 8) {
+						// a timestamp whose distance from the clock sits on an integer-width edge: never acceptable
+						h.reqs = append(h.reqs, forgeReq(h.cc, h.cfg.KeySize, h.r, time.Unix(extremeTS(r, time.Now()), 0)))
+						h.presentReq(len(h.reqs)-1, "fresh")
+						break
+					}
 					h.presentReq(h.fresh(skews[r.Intn(len(skews))], r.Chance(1, 4)), "fresh")
 				case op < 8:
 					if len(h.reqs) > 0 {
